@@ -149,7 +149,7 @@ class Lint:
 
     def __init__(self, doc):
         self.wf, self.err, self.hard, self.soft, self.where = True, None, [], [], {}
-        self.nlines = doc.count(b"\n") + 1
+        self.nlines = len(re.findall(rb"\r\n|\r|\n", doc)) + 1
         self.nel = 0
         p = pyexpat.ParserCreate()
         p.ordered_attributes = True
@@ -535,8 +535,12 @@ class Drv:
             o.kind = "unparsable"
 
 
+_RX_NL = re.compile(rb"\r\n|\r|\n")
+
+
 def nlines(doc):
-    return doc.count(b"\n") + 1
+    """number of lines as an XML processor counts them (CR, LF and CRLF all end a line)"""
+    return len(_RX_NL.findall(doc)) + 1
 
 
 def elem_at_line(doc, line, lint=None):
@@ -554,7 +558,7 @@ def elem_at_line(doc, line, lint=None):
 def slug(msg, n=6):
     msg = re.sub(r"\\x[0-9a-f]{2}", "", msg or "")
     msg = re.sub(r"\"[^\"]*\"|'[^']*'|=.*$|[-+]?\d[\d.eE+-]*", " ", msg)
-    w = re.findall(r"[A-Za-z_]+", msg)
+    w = [x[:16] for x in re.findall(r"[A-Za-z_]+", msg)]
     return "-".join(w[:n]).lower() or "empty-message"
 
 
@@ -569,7 +573,8 @@ def judge_parse(ck, F, rec, o, stage="parse", lint=None, expect=None):
         ck.inconc("driver reply not understood")
         return "unparsable"
     if o.kind == "refused":
-        located = o.cls == "parser" and 1 <= o.line <= nlines(doc)
+        # read_xml() feeds "line" + "\n" for every getline(): a document without a final newline gains one
+        located = o.cls == "parser" and 1 <= o.line <= nlines(doc) + (1 if rec.kind == "adjxml" or rec.mode == "g3lines" else 0)
         if BREAK == "line-strict":
             located = located and o.line < nlines(doc) - 1
         if not located:
@@ -609,6 +614,7 @@ class GL:
         self.ck = ck
         self.exe = runner.binpath("san", "gama-local")
         self.n = itertools.count(1)
+        self.min_cache = {}
 
     def run(self, doc, args, stdin=False, timeout=WATCHDOG, missing_input=False):
         d = os.path.join(self.ck.tmp, "gl%d" % next(self.n))
@@ -692,23 +698,27 @@ def gl_outcome(g):
     return "ok-no-xml", None, ""
 
 
+def is_opt(a):
+    return isinstance(a, str) and re.fullmatch(r"--?[a-z][a-z-]*", a) is not None
+
+
 def optkey(args):
     """stable name of an option set for violation keys"""
-    names = []
-    for a in args:
-        if isinstance(a, str) and a.startswith("-") and a not in ("-",) and not re.fullmatch(r"-?\d+", a):
-            names.append(a.lstrip("-"))
-    return "+".join(sorted(set(names))) or "default"
+    names = [a.lstrip("-") for a in args if is_opt(a)]
+    k = "+".join(sorted(set(names))) or "default"
+    if "@@" not in args:
+        k = "no-input-file" + ("" if k == "default" else "+" + k)
+    return k
 
 
 def judge_gl(ck, F, GLr, doc, g, label, expect=None, meta=None, minimise_opts=True):
-    """Oracle for one gama-local run.  expect: None | 'valid' | 'adjust' (valid document that must be adjusted).
-    Returns the outcome class."""
+    """Oracle for one gama-local run.  Returns the outcome class."""
     cls, line, detail = gl_outcome(g)
     args = list(g.args)
-    wit = lambda **kw: mkwit("pipeline", doc, args=args, label=label, meta=meta, rc=g.rc, **kw)
+    stdin = getattr(g, "stdin", False)
+    wit = lambda **kw: mkwit("pipeline", doc, args=args, stdin=stdin, label=label, meta=meta, rc=g.rc, **kw)
     if cls == "timeout":
-        g2 = GLr.run(doc, args, stdin=getattr(g, "stdin", False))
+        g2 = GLr.run(doc, args, stdin=stdin)
         if g2.rr.timeout:
             F.add("hang:gama-local:%s" % hang_frames(g2.rr),
                   "gama-local did not finish within %.0f s (twice) on a %d-byte input; SIGABRT stack: %s" % (
@@ -720,11 +730,16 @@ def judge_gl(ck, F, GLr, doc, g, label, expect=None, meta=None, minimise_opts=Tr
         key, what = san_key(g.rr)
         opts = args
         if minimise_opts:
-            opts = minimise_args(GLr, doc, args, key)
-        base = [a for a in opts if a != "@@"]
-        pk = "gama-local:" + key if not _has_real_options(base) else "pipeline:%s:%s" % (optkey(base), key)
+            if key in GLr.min_cache:
+                opts = GLr.min_cache[key]
+                if san_key(GLr.run(doc, opts, stdin=stdin).rr)[0] != key:
+                    opts = minimise_args(GLr, doc, args, stdin, lambda g2: san_key(g2.rr)[0] == key)
+            else:
+                opts = minimise_args(GLr, doc, args, stdin, lambda g2: san_key(g2.rr)[0] == key)
+                GLr.min_cache[key] = opts
+        pk = "gama-local:" + key if not _has_real_options(opts) else "pipeline:%s:%s" % (optkey(opts), key)
         F.add(pk, what + " (gama-local %s)" % " ".join(str(a) for a in opts),
-              mkwit("pipeline", doc, args=opts, label=label, meta=meta, rc=g.rc, stderr=(g.err or "")[:1500]))
+              mkwit("pipeline", doc, args=opts, stdin=stdin, label=label, meta=meta, rc=g.rc, stderr=(g.err or "")[:1500]))
         return "crash"
     if cls == "bad-exit":
         F.add("pipeline:%s:exit-%s" % (optkey(args), g.rc), "gama-local exit status %s" % g.rc, wit())
@@ -744,18 +759,17 @@ def judge_gl(ck, F, GLr, doc, g, label, expect=None, meta=None, minimise_opts=Tr
 
 def _has_real_options(args):
     """anything beyond the input file and plain output files?"""
-    plain = {"--text", "--xml"}
-    return any(isinstance(a, str) and a.startswith("--") and a not in plain for a in args)
+    plain = {"text", "xml"}
+    return "@@" not in args or any(is_opt(a) and a.lstrip("-") not in plain for a in args)
 
 
-def minimise_args(GLr, doc, args, key):
-    """drop option groups while the same report is produced"""
+def minimise_args(GLr, doc, args, stdin, still):
+    """drop option groups while still(run) holds"""
     groups, i = [], 0
     args = list(args)
     while i < len(args):
         a = args[i]
-        if isinstance(a, str) and a.startswith("--") and i + 1 < len(args) and not str(args[i + 1]).startswith("--") \
-                and args[i + 1] != "@@":
+        if is_opt(a) and i + 1 < len(args) and not is_opt(args[i + 1]) and args[i + 1] != "@@":
             groups.append([a, args[i + 1]])
             i += 2
         else:
@@ -766,13 +780,12 @@ def minimise_args(GLr, doc, args, key):
     while changed and runs < 40:
         changed = False
         for k in range(len(groups)):
-            if groups[k] == ["@@"]:
-                continue
             trial = [x for j, gr in enumerate(groups) if j != k for x in gr]
-            g = GLr.run(doc, trial)
+            if groups[k] == ["@@"] and stdin:
+                continue
+            g = GLr.run(doc, trial, stdin=stdin)
             runs += 1
-            k2, _ = san_key(g.rr)
-            if k2 == key:
+            if still(g):
                 groups.pop(k)
                 changed = True
                 break
@@ -1297,7 +1310,7 @@ def mutations(seed, name, doc, n_tok, n_flip, n_elem):
     for _ in range(n_elem):
         if len(el_lines) < 3:
             break
-        k = int(rng.integers(0, 7))
+        k = int(rng.integers(0, 9))
         a = el_lines[int(rng.integers(len(el_lines)))]
         b = el_lines[int(rng.integers(len(el_lines)))]
         L = list(lines)
@@ -1329,6 +1342,21 @@ def mutations(seed, name, doc, n_tok, n_flip, n_elem):
                     d = max(0, int(m.group(1)) + int(rng.choice([-1, 1, 1, 2, -2])))
                     L[q] = lines[q][:m.start(1)] + str(d).encode() + lines[q][m.end(1):]
                     yield ("cov-dim", "cov-mat@dim", "%+d" % (d - int(m.group(1)))), b"\n".join(L)
+        elif k >= 7:
+            # number of observations of a cluster that has a cov-mat: one observation line deleted or repeated
+            cov = [q for q, l in enumerate(lines) if b"<cov-mat" in l]
+            if cov:
+                q = cov[int(rng.integers(len(cov)))]
+                z = q - 1
+                while z > 0 and not re.match(rb"\s*<(direction|distance|angle|s-distance|z-angle|azimuth|dh|vec|point)\b.*/>\s*$", lines[z]):
+                    z -= 1
+                if z > 0:
+                    ctag = re.match(rb"\s*<([\w-]+)", lines[z]).group(1).decode()
+                    if k == 7:
+                        del L[z]
+                    else:
+                        L.insert(z, L[z])
+                    yield ("cov-obs-count", ctag, "-1" if k == 7 else "+1"), b"\n".join(L)
         else:
             cov = [q for q, l in enumerate(lines) if b"<cov-mat" in l]
             if cov:
@@ -1855,6 +1883,10 @@ ENCS = ("utf-8", "iso-8859-2", "iso-8859-2-flat", "cp-1250", "cp-1251")
 ELLIPSOIDS = ("wgs84", "grs80", "bessel", "krassovski", "airy", "hayford")
 
 
+BAD_OPT = {"algorithm=foo", "language=xx", "encoding=latin9", "angular=100", "cov-band=-2", "cov-band=x", "cov-band=2x",
+           "iterations=-1", "iterations=abc", "latitude=abc", "ellipsoid=nowhere"}
+
+
 def rand_options(rng):
     """-> (args, stdin, features).  A random, possibly silly, gama-local command line; '@@' is the input."""
     a, feat = [], set()
@@ -1875,8 +1907,10 @@ def rand_options(rng):
     for name, vals in pool:
         if rng.uniform() < 0.3:
             v = vals[int(rng.integers(len(vals)))]
+            if ("%s=%s" % (name, v)) in BAD_OPT and rng.uniform() < 0.75:
+                v = vals[0]
             a += ["--" + name] + ([v] if v is not None else [])
-            feat.add("%s=%s" % (name, "bad" if v in ("foo", "xx", "latin9", "100", "-2", "x", "2x", "-1" if name == "iterations" else "~", "abc", "91", "nowhere") else "ok"))
+            feat.add("%s=%s" % (name, "bad" if ("%s=%s" % (name, v)) in BAD_OPT else "ok"))
             if rng.uniform() < 0.08:
                 v2 = vals[int(rng.integers(len(vals)))]
                 a += ["--" + name] + ([v2] if v2 is not None else [])
@@ -1908,10 +1942,10 @@ def w6_options(X):
     ck, F = X.ck, X.F
     docs = list(X.valid)
     if len(docs) < 10:
-        for i in range(20):
-            d, m = gen_valid(X.seed, 7000 + i)
-            if not m["parse_only"]:
-                docs.append((d, m))
+        cand = [gen_valid(X.seed, 7000 + i) for i in range(40)]
+        recs = [Rec("f%d" % i, "gkf", "lines", d, m) for i, (d, m) in enumerate(cand)]
+        res = X.drv.run(recs, "w6 fallback documents")
+        docs += [(r.doc, r.meta) for r in recs if res[r.id].kind == "accepted" and not r.meta["parse_only"]]
     for name, d in repo_inputs(5000):
         docs.append((d, dict(features=["repo:" + name], repo=name)))
     n = X.n(420, 6000)
@@ -1928,6 +1962,8 @@ def w6_options(X):
                   ["@@", "--cov-band", "0", "--xml", "@xml", "--html", "@html"], ["@@", "--angular", "360", "--text", "@text", "--html", "@html", "--xml", "@xml"]):
         jobs.append((len(jobs), d0, docs[0][1], extra, False, {"fixed:" + optkey(extra)}))
 
+    refused_min = []
+
     def work(j):
         i, doc, meta, args, stdin, feat = j
         return j, X.gl.run(doc, args, stdin=stdin)
@@ -1939,9 +1975,14 @@ def w6_options(X):
         for f in feat:
             ck.cls(("w6", f, c.split(":")[0]))
         ck.count("w6 gama-local: " + c.split(":")[0])
-        if c in ("parse-error", "parse-exception") and "missing-value" not in feat and args.count("@@") == 1 and "--input-xml" not in args:
-            F.add("pipeline:%s:valid-input-refused" % optkey(args), "a valid document is refused with these options: %s" % (gl_outcome(g),),
-                  mkwit("pipeline", doc, args=args, stdin=stdin))
+        if c in ("parse-error", "parse-exception") and args.count("@@") == 1 and len(refused_min) < 12:
+            opts = minimise_args(X.gl, doc, args, stdin, lambda g2: gl_outcome(g2)[0] in ("parse-error", "parse-exception"))
+            refused_min.append(opts)
+            if _has_real_options(opts):
+                F.add("pipeline:%s:valid-input-refused" % optkey(opts), "a document that is adjusted without options is refused with "
+                      "these: %s" % (gl_outcome(g),), mkwit("pipeline", doc, args=opts, stdin=stdin))
+            else:
+                ck.inconc("w6 document refused without options")
         if c == "adjusted" or c == "ok-no-xml":
             for k, data in g.files.items():
                 m = RX_NAN.search(data)
@@ -2035,14 +2076,14 @@ def w7_other_parsers(X):
     seeds = g3_seeds(X)
     recs = []
     for i, (name, doc) in enumerate(seeds):
-        recs.append(Rec("g%d" % i, "datax", "lines", doc, dict(seed=name, label=("seed", ""), expect="valid")))
+        recs.append(Rec("g%d" % i, "datax", "g3lines", doc, dict(seed=name, label=("seed", ""), expect="valid")))
         if len(doc) <= X.n(2500, 6000):
             recs.append(Rec("ge%d" % i, "data", "every", doc, dict(seed=name, label=("seed-chunked", ""))))
         for k, (lab, m) in enumerate(mutations_generic(X.seed + i, doc, X.n(150, 1500))):
-            recs.append(Rec("gm%d_%d" % (i, k), "data", "lines", m, dict(seed=name, label=lab)))
+            recs.append(Rec("gm%d_%d" % (i, k), "data", "g3lines", m, dict(seed=name, label=lab)))
         if len(doc) <= 2500 and i < X.n(2, 6):
             for cut in range(0, len(doc)):
-                recs.append(Rec("gt%d_%d" % (i, cut), "data", "lines", doc[:cut], dict(seed=name, label=("truncate", ""))))
+                recs.append(Rec("gt%d_%d" % (i, cut), "data", "g3lines", doc[:cut], dict(seed=name, label=("truncate", ""))))
     res = X.drv.run(recs, "w7 DataParser")
     for r in recs:
         o = res[r.id]
@@ -2059,7 +2100,7 @@ def w7_other_parsers(X):
         ck.count("w7 DataParser: " + c)
         if c == "refused-valid":
             F.add("reject-valid:data:%s" % r.meta["seed"].split(":")[0], "DataParser refuses %s on line %d: [%s]" % (r.meta["seed"], o.line, o.msg),
-                  mkwit("parse", r.doc, kind="datax", mode="lines", expect="valid", meta=r.meta))
+                  mkwit("parse", r.doc, kind="datax", mode="g3lines", expect="valid", meta=r.meta))
     # ---- adjustment-result readers, seeded with gama-local's own outputs
     xmls = [("own-output", d) for d in X.outputs["xml"][:X.n(12, 60)]]
     htmls = [("own-output", d) for d in X.outputs["html"][:X.n(8, 40)]]
@@ -2096,8 +2137,8 @@ def w7_other_parsers(X):
 # ------------------------------------------------------------------------------------------------------------
 # (8) libFuzzer
 
-FUZZ = (("fuzz_gkf", "gkf", "gkf.dict", 4096), ("fuzz_dataparser", "data", "data.dict", 8192),
-        ("fuzz_adjresults", "adj", "adj.dict", 16384))
+FUZZ = (("fuzz_gkf", "gkf", "gkf.dict", 4096), ("fuzz_dataparser", "data", "data.dict", 12288),
+        ("fuzz_adjresults", "adj", "adj.dict", 12288))
 
 
 def judge_artifact(X, kind, data, label):
@@ -2122,7 +2163,7 @@ def judge_artifact(X, kind, data, label):
                         F.add("silent-accept:%s" % cat, "line %d violates the documented grammar (%s); accepted and adjusted" % (ln, cat),
                               mkwit("pipeline", data, args=a, label=label, lint=cat))
     elif kind == "data":
-        r = Rec("a", "data", "lines", data, dict(label=label))
+        r = Rec("a", "data", "g3lines", data, dict(label=label))
         judge_parse(ck, F, r, X.drv.run([r], "w8 artifacts")["a"])
     else:
         html = data[:1] == b"H"
@@ -2155,7 +2196,7 @@ def w8_fuzz(X, build_thread):
         w = os.path.join(ck.tmp, "fz-%s-%d" % (target, j))
         os.makedirs(os.path.join(w, "corpus"), exist_ok=True)
         os.makedirs(os.path.join(w, "art"), exist_ok=True)
-        cmd = [exe, "-runs=%d" % runs, "-seed=%d" % (X.seed * 1000 + j + 1), "-max_len=%d" % maxlen, "-timeout=%d" % int(WATCHDOG),
+        cmd = [exe, "-runs=%d" % runs, "-seed=%d" % (X.seed * 1000 + j + 1), "-max_len=%d" % maxlen, "-timeout=%d" % int(WATCHDOG + 5),
                "-rss_limit_mb=4096", "-malloc_limit_mb=2048", "-print_final_stats=1", "-artifact_prefix=" + os.path.join(w, "art") + "/",
                "-dict=" + os.path.join(CORPUS, dic), os.path.join(w, "corpus"), seeds]
         rr = runner.run(cmd, cwd=w, timeout=X.n(170, 1300), env=env)
@@ -2190,8 +2231,8 @@ def w8_fuzz(X, build_thread):
             ck.count("w8 artifacts [%s] %s" % (target, what))
             if not judge_artifact(X, kind, data, "libFuzzer %s %s" % (target, what)):
                 ck.count("w8 artifacts not reproduced on the san binaries [%s] %s" % (target, what))
-                ck.sample(dict(workload=8, unreproduced_artifact=fn, target=target, bytes=len(data), head=data[:300].decode(errors="replace"),
-                               stderr_tail=(rr.err or "")[-600:]), limit=10)
+                ck.sample(dict(workload=8, unreproduced_artifact=fn, target=target, bytes=len(data), doc_b64=b64(data[:6000]),
+                               stderr_tail=(rr.err or "")[-1500:]), limit=8)
     # the grown corpus goes through the real pipeline: whatever the parser accepts must be adjusted or refused normally
     rng = np.random.default_rng([X.seed, 1108])
     grown = corpus_new.get("gkf", [])
